@@ -1,5 +1,6 @@
 import EkwVerif.Drive.Util
 import EkwVerif.Model.Ctrl
+import EkwVerif.Model.CtrlN
 open Lean EkwVerif.Drive EkwVerif.Ctrl
 
 namespace EkwVerif.DriveCtrl
@@ -11,6 +12,7 @@ structure DState where
   job : Job
   cl : Cluster
   sys : Sys
+  hidden : Hidden := fun _ => false     -- non-atomic layer (Model/CtrlN.lean): outputs computed by a running body, not yet published
 
 def n (x : Nat) : Json := toJson x
 def jds (d : Ds) : Json := Json.arr #[n d.task, n d.out]
